@@ -570,6 +570,29 @@ def sites_of(view, T):
     return out
 
 
+def mconfig(src, n):
+    """the source package itself uses names of the form 'M'+X next to X (an office suite calls the automatic styles of
+    its master pages MP1, MT1, ...): which of X, MX, MMX, ... exist in content.xml, which in styles.xml and in which
+    order, and which one the reference names.  '' if the name has no such relatives."""
+    cn = [t[1].get(STYLE_NAME) or u'' for t in src.cauto]
+    sn = [t[1].get(STYLE_NAME) or u'' for t in src.sauto]
+    known = set(cn + sn + [t[1].get(STYLE_NAME) or u'' for t in src.common])
+    base = n
+    while base.startswith(u'M') and base[1:] in known:
+        base = base[1:]
+
+    def exp(x):
+        k = 0
+        while x != base and x.startswith(u'M'):
+            x = x[1:]; k += 1
+        return k if x == base else None
+    ce = sorted(e for e in map(exp, cn) if e is not None)
+    se = [e for e in map(exp, sn) if e is not None]
+    if not [e for e in ce + se if e > 0]:
+        return ''
+    return '+m[c%s;s%s;n%d]' % ('.'.join(map(str, ce)), '.'.join(map(str, se)), exp(n))
+
+
 def index_of(pool, t):
     for i, x in enumerate(pool):
         if x is t:
@@ -609,7 +632,8 @@ def oracle(spec, T, loader):
         clash = b['name'] in cnames and b['name'] in snames
         if clash:
             stats['clash_sites'] += 1
-        sig0 = '%s:%s:%s%s%s' % (sig_kind(b['target']), b['attr'], placement, '' if clash else ':noclash', ('+' + tag) if tag else '')
+        sig0 = '%s:%s:%s%s%s%s' % (sig_kind(b['target']), b['attr'], placement, '' if clash else ':noclash',
+                                   mconfig(src, b['name']), ('+' + tag) if tag else '')
         for where, res in (('saved package', after), ('loaded document', mem)):
             r = res.get(key)
             sig = sig0
@@ -737,6 +761,31 @@ def internal_cells():
                                  'differ': '%s/%s' % (mc, ms)}
 
 
+def mname_spec(X, kind, host, cextra, sextra, order):
+    spec = empty_spec()
+    names = lambda ex: [u'M' * k + X for k in ex]
+    cdefs = [X] + names(cextra)
+    sdefs = ([X] + names(sextra)) if order == 'first' else (names(sextra) + [X])
+    for i, n in enumerate(cdefs):
+        spec['cauto'].append(sdef(kind, n, 'C%d' % i))
+        spec['body'].append(site('b%d' % i, 'text:style-name', host, n))
+    for i, n in enumerate(sdefs):
+        spec['sauto'].append(sdef(kind, n, 'S%d' % i, mm='child' if i % 2 else 'attr'))
+        spec['master'].append(site('m%d' % i, 'text:style-name', host, n))
+    return spec
+
+
+MNAME_CONFIGS = [(c, s_, o) for c in ((), (1,), (2,), (1, 2)) for s_ in ((), (1,), (2,), (1, 2)) for o in ('first', 'last')
+                 if (c or s_) and not (o == 'last' and not s_)]
+
+
+def mname_cells(X, kind, host, only=None):
+    for cextra, sextra, order in (only or MNAME_CONFIGS):
+        yield mname_spec(X, kind, host, cextra, sextra, order), {
+            'block': 'special', 'what': "%s in both parts; content.xml also has %s; styles.xml also has %s, %s %s" % (
+                X, ['M' * k + X for k in cextra], ['M' * k + X for k in sextra], X, order)}
+
+
 def special_cells():
     # fixed cases for the ways two definitions of one name can differ: P1 and T1 in both parts, referenced from body and header
     for mc, ms in MARKER_MODES:
@@ -746,22 +795,11 @@ def special_cells():
         s['body'] += [site('b1', 'text:style-name', 'text:p', 'P1'), site('b2', 'text:style-name', 'text:span', 'T1')]
         s['master'] += [site('m1', 'text:style-name', 'text:p', 'P1'), site('m2', 'text:style-name', 'text:span', 'T1')]
         yield s, {'block': 'special', 'what': 'P1/T1 in both parts, definitions differ by %s/%s' % (mc, ms)}
-    # 'M'+name is already taken in content.xml
-    s = empty_spec()
-    s['cauto'] += [sdef('paragraph', 'P1', 'A'), sdef('paragraph', 'MP1', 'C')]
-    s['sauto'] += [sdef('paragraph', 'P1', 'B')]
-    s['body'] += [site('b1', 'text:style-name', 'text:p', 'P1'), site('b2', 'text:style-name', 'text:p', 'MP1')]
-    s['master'] += [site('m1', 'text:style-name', 'text:p', 'P1')]
-    s['tag'] = 'mname-taken'
-    yield s, {'block': 'special', 'what': "content.xml has P1 and MP1, styles.xml has P1"}
-    # 'M'+name is taken in styles.xml itself (an office suite names its master-page styles MP1, MP2 ...)
-    s = empty_spec()
-    s['cauto'] += [sdef('paragraph', 'P1', 'A')]
-    s['sauto'] += [sdef('paragraph', 'MP1', 'C'), sdef('paragraph', 'P1', 'B')]
-    s['body'] += [site('b1', 'text:style-name', 'text:p', 'P1')]
-    s['master'] += [site('m1', 'text:style-name', 'text:p', 'P1'), site('m2', 'text:style-name', 'text:p', 'MP1')]
-    s['tag'] = 'mname-taken'
-    yield s, {'block': 'special', 'what': "content.xml has P1, styles.xml has MP1 and P1"}
+    # the source already uses 'M'+X / 'MM'+X next to X, in content.xml, in styles.xml, before or after X
+    for spec, info in mname_cells('P1', 'paragraph', 'text:p'):
+        yield spec, info
+    for spec, info in mname_cells('MT', 'text', 'text:span', only=[((1,), (1,), 'first'), ((), (1, 2), 'first'), ((1,), (), 'last')]):
+        yield spec, info
     # the same name in different families across the parts (keyed by name only: renamed although nothing clashes)
     s = empty_spec()
     s['cauto'] += [sdef('paragraph', 'X1', 'A')]
@@ -880,7 +918,16 @@ def gen_random(rng, DP):
             if host in ('style:master-page', 'presentation:notes', 'draw:page-thumbnail', 'draw:page'):
                 continue
             spec[region].append(site(newsid(), attr, host, rng.choice(pool)))
-    return spec, {'block': 'random', 'collisions': ncoll, 'kinds': kinds}
+    mcfg = None
+    if rng.random() < 0.3:
+        # the source already uses 'M'+X next to X: one of the fixed configurations, under a name of its own
+        mcfg = rng.choice(MNAME_CONFIGS)
+        extra = mname_spec(u'Q7', 'paragraph', 'text:p', *mcfg)
+        for part in ('cauto', 'sauto'):
+            for d in extra[part]:
+                spec[part].append(d)          # (relative order inside the configuration is what matters)
+        spec['body'] += extra['body']; spec['master'] += extra['master']
+    return spec, {'block': 'random', 'collisions': ncoll, 'kinds': kinds, 'mnames': mcfg}
 
 
 # ------------------------------------------------------------------ correspondence with the model (drv_clash)
